@@ -47,6 +47,7 @@ type Options struct {
 	AccountID   string            `json:"accountId"`
 	Port0       bool              `json:"port0"`
 	ExitLagMs   int               `json:"exitLagMs"`
+	FrontEnd bool `json:"frontEnd,omitempty"` // invocations go through cmd/aws-lambda-rie's InvokeHandler (vhfe only)
 	OpWaitMs    int               `json:"opWaitMs"` // bound for a single driver step (default 20 s)
 }
 
@@ -55,6 +56,7 @@ type Stack struct {
 	Rec   *rec.Recorder
 	Sup   *FakeSup
 	Gates *Gates
+	API   rapidcore.LambdaInvokeAPI // what the front end is given in cmd/aws-lambda-rie/main.go
 	Srv   *rapidcore.Server
 	State func() statejson.InternalStateDescription
 	Addr  string
@@ -72,6 +74,8 @@ type Stack struct {
 	ninv     int
 	lastReq  []string          // request ids seen by the runtime, in order
 	nbody    int
+	nfe       int
+	feCallers map[int]int
 }
 
 type bootstrap struct{ cwd string }
@@ -154,11 +158,14 @@ func New(opt Options) (*Stack, error) {
 	srv := b.DefaultInteropServer()
 	srv.SetSandboxContext(sbCtx)
 	srv.SetInternalStateGetter(stateFn)
-	s := &Stack{Opt: opt, Rec: r, Sup: sup, Gates: gates, Srv: srv, State: stateFn, Addr: addr, Root: root,
+	s := &Stack{Opt: opt, Rec: r, Sup: sup, Gates: gates, Srv: srv, API: b.LambdaInvokeAPI(), State: stateFn, Addr: addr, Root: root,
 		HTTP:     &http.Client{Transport: &http.Transport{DisableKeepAlives: true, MaxIdleConns: 0}},
 		bodies:   map[string]string{},
 		intAgent: map[string]string{}, intGen: map[string]int{}}
 	s.ctx, s.cancel = context.WithCancel(context.Background())
+	if opt.FrontEnd {
+		feSetup(opt)
+	}
 	// wait until the Runtime API accepts connections (Listen runs in a goroutine)
 	if !opt.Port0 {
 		deadline := time.Now().Add(5 * time.Second)
